@@ -978,7 +978,10 @@ static void thread_arenas(void) {
 }
 
 static void emit_start(void) {
-    fprintf(out, "{\"e\":\"Start\",\"strsize\":%d,\"strsizeof\":%zu,\"datasize\":%d,\"stackscan\":%s,\"charsigned\":%s",
+    /* (the public size constants as a caller would use them inside larger expressions) */
+    fprintf(out, "{\"e\":\"Start\",\"strsize_x3\":%ld,\"strsize_rem7\":%ld,\"size_x3\":%ld,\"numwords_x3\":%ld,", (long)(3 * POLYSEED_STR_SIZE), (long)(1000 % POLYSEED_STR_SIZE),
+        (long)(3 * POLYSEED_SIZE), (long)(3 * POLYSEED_NUM_WORDS));
+    fprintf(out, "\"strsize\":%d,\"strsizeof\":%zu,\"datasize\":%d,\"stackscan\":%s,\"charsigned\":%s",
         POLYSEED_STR_SIZE, sizeof(polyseed_str),
 #ifdef DRV_SO
         0,
